@@ -53,6 +53,21 @@ Theorem C12_fname_terminates_fresh : forall name visited,
 Proof. exact sanitize_total. Qed.
 Print Assumptions C12_fname_terminates_fresh.
 
+(* module-name collisions: the alias of a colliding module is a function of its package's initials, so two colliding
+   modules of one base name are told apart exactly when the initials of their packages differ ... *)
+Theorem C12_module_alias_distinct_iff : forall p1 p2 v m,
+  module_alias p1 v m true = module_alias p2 v m true <-> pkg_initials p1 v = pkg_initials p2 v.
+Proof. exact module_alias_distinct_iff. Qed.
+Print Assumptions C12_module_alias_distinct_iff.
+
+(* ... and the property's claim for every pair of packages is false of the code: google.example.kw.v1.alpha and
+   google.example.kw.v1.apple both yield geka_common (known finding C12-alias-same-initials; replayed on the generator
+   by the harness, kind modcoll with sub-packages alpha/apple) *)
+Theorem C12_module_alias_same_initials_refuted :
+  exists p1 p2 v m, p1 <> p2 /\ module_alias p1 v m true = module_alias p2 v m true.
+Proof. exact module_alias_same_initials_refuted. Qed.
+Print Assumptions C12_module_alias_same_initials_refuted.
+
 Example C12_examples :
   field_attr "class" = "class_" /\ fix_path "book.class.name" = "book.class_.name" /\ body_attr "import" = "import_"
   /\ sanitize_fname "import" ["import_"; "import__"] = Some "import___" /\ sanitize_fname "a.b" [] = Some "a_b"
